@@ -16,7 +16,7 @@ PROPS_FILE = 'ScnVerif/Props/C13.lean'
 TRANSLATORS = [tr_sqw.translate]
 RULE = (
     'same builder programs as C12 (subsets/orders of the five calls, repeated calls, three byte orders, BytesIO and real '
-    'files, 0..1e5 pixels, chunk sizes around the pixel and the row count, 1..20 runs in direct and indirect mode) with '
+    'files incl. targets that already hold data (existing larger/smaller file, file of another program, prefilled BytesIO), 0..1e5 pixels, chunk sizes around the pixel and the row count, 1..20 runs in direct and indirect mode) with '
     'content variety: custom row selections (1..12 rows, custom stored units); every numeric field (pixel coordinates, efix, en, angles, histogram scales/ranges/offsets) in dtype float64/float32/int64/int32 independently of its unit, with values that are not whole numbers in the stored unit; pixel values uniform / log-uniform over 1e-12..1e12 / exact float32 rounding midpoints / exactly '
     'representable / integers; input units drawn from {1/angstrom,1/nm,10/angstrom,1/um,1/fm}, {meV,ueV,eV,J}, '
     '{count, mega count}, angles in deg or rad, lattice spacings in angstrom/nm/pm; strings of length 0..300 incl. empty. '
